@@ -55,6 +55,9 @@ const (
 
 	cacheFileMagic   = "P2CC"
 	cacheFileVersion = 1
+
+	// Stream id written over the header of a stream that is no longer valid.
+	invalidStreamID = ^uint64(0)
 )
 
 func readVarInt(r io.ByteReader) (uint64, int, error) {
@@ -273,6 +276,15 @@ func NewCacheFile(cachePath string) (*cacheFile, error) {
 		}
 		res.fileSize += streamHeaderSize
 
+		if streamSection.StreamID == invalidStreamID {
+			// The stream was invalidated, its space is free.
+			if res.freeSize == 0 || res.freeStart > res.fileSize-streamHeaderSize {
+				res.freeStart = res.fileSize - streamHeaderSize
+			}
+			res.freeSize += streamHeaderSize + int64(streamSize)
+			res.fileSize += int64(streamSize)
+			continue
+		}
 		if info, ok := res.streamInfos[streamSection.StreamID]; ok {
 			if res.freeSize == 0 || res.freeStart > info.offset-streamHeaderSize {
 				res.freeStart = info.offset - streamHeaderSize
@@ -592,6 +604,11 @@ func (cachefile *cacheFile) setData(streamID uint64, streamTime time.Time, conve
 	cachefile.rwmutex.Lock()
 	defer cachefile.rwmutex.Unlock()
 
+	// The previous data of the stream is replaced.
+	if info, ok := cachefile.streamInfos[streamID]; ok {
+		cachefile.freeStream(streamID, info)
+	}
+
 	if cachefile.freeSize >= cleanupMinFreeSize && cachefile.freeSize >= int64(float64(cachefile.fileSize)*cleanupMinFreeFactor) {
 		if err := cachefile.truncateFile(); err != nil {
 			return fmt.Errorf("failed to truncate file: %w", err)
@@ -722,16 +739,28 @@ func (cachefile *cacheFile) InvalidateChangedStreams(streams *bitmask.LongBitmas
 		// delete the stream from the in-memory index
 		// it will be re-added when the stream is converted again
 		if info, ok := cachefile.streamInfos[uint64(streamID)]; ok {
-			cachefile.freeSize += int64(info.size) + streamHeaderSize
-			if cachefile.freeStart > info.offset-streamHeaderSize {
-				cachefile.freeStart = info.offset - streamHeaderSize
-			}
-			delete(cachefile.streamInfos, uint64(streamID))
+			cachefile.freeStream(uint64(streamID), info)
 			invalidatedStreams.Set(streamID)
 		}
 	}
 
 	return invalidatedStreams
+}
+
+// freeStream forgets the stream and marks its data in the file as invalid,
+// so that it is not picked up again when the file is loaded the next time.
+func (cachefile *cacheFile) freeStream(streamID uint64, info streamInfo) {
+	cachefile.freeSize += int64(info.size) + streamHeaderSize
+	if cachefile.freeStart > info.offset-streamHeaderSize {
+		cachefile.freeStart = info.offset - streamHeaderSize
+	}
+	delete(cachefile.streamInfos, streamID)
+
+	header := [streamHeaderSize]byte{}
+	binary.LittleEndian.PutUint64(header[:], invalidStreamID)
+	if _, err := cachefile.file.WriteAt(header[:], info.offset-streamHeaderSize); err != nil {
+		log.Printf("Failed to invalidate stream %d in converter cache file(%q): %v\n", streamID, cachefile.cachePath, err)
+	}
 }
 
 // func (writer *writer) invalidateStream(stream *index.Stream) error {
